@@ -216,10 +216,16 @@ class CirqSimulator(Backend):
             qubit_list = self.cirq.LineQubit.range(source_circuit.width)
             for i, qubit in enumerate(qubit_list):
                 translated_circuit.append(self.cirq.measure(qubit, key=str(i + n_meas)))
-            job_sim = cirq_simulator.run(translated_circuit, repetitions=self.n_shots)
+            if initial_statevector is None:
+                measurements = cirq_simulator.run(translated_circuit, repetitions=self.n_shots).measurements
+            # cirq's run method always starts from the all-zero state: simulate each shot from the initial statevector
+            else:
+                shots = [cirq_simulator.simulate(translated_circuit, initial_state=cirq_initial_statevector).measurements
+                         for _ in range(self.n_shots)]
+                measurements = {str(i): np.array([shot[str(i)] for shot in shots]) for i in range(n_meas + source_circuit.width)}
             samples = dict()
             for j in range(self.n_shots):
-                bitstr = "".join([str(job_sim.measurements[str(i)][j, 0]) for i in range(n_meas + source_circuit.width)])
+                bitstr = "".join([str(measurements[str(i)][j, 0]) for i in range(n_meas + source_circuit.width)])
                 samples[bitstr] = samples.get(bitstr, 0) + 1
             self.all_frequencies = {k: v / self.n_shots for k, v in samples.items()}
             frequencies = self.all_frequencies
